@@ -27,7 +27,34 @@ MARGIN = 1e-6
 def mk_grid(m):
     import uxarray as ux
     lon, lat = m.lonlat()
-    return ux.Grid.from_topology(np.array(lon), np.array(lat), np.array(m.table(), dtype=np.intp), fill_value=FILL)
+    kw = {}
+    if getattr(m, "supplied_edges", None):
+        # a source that ships its own edge table in arbitrary order / orientation (MPAS, ICON, UGRID Mesh2_edge_nodes)
+        kw["edge_node_connectivity"] = np.array(m.supplied_edges, dtype=np.intp)
+    return ux.Grid.from_topology(np.array(lon), np.array(lat), np.array(m.table(), dtype=np.intp), fill_value=FILL, **kw)
+
+
+def supplied_edges_for(m, rng):
+    pairs = sorted({(min(a, b), max(a, b)) for f in m.faces for a, b in zip(f, f[1:] + f[:1])})
+    pairs = [list(p) if rng.random() < 0.5 else [p[1], p[0]] for p in pairs]
+    rng.shuffle(pairs)
+    return pairs
+
+
+def band_mesh(nlon, nlat, lat0, lat1):
+    """a structured lat-lon band (partial grid without poles): large enough (> 4096 edges) for the blocked / parallel
+    code paths of the latitude scan"""
+    nodes, faces = [], []
+    for j in range(nlat + 1):
+        la = math.radians(lat0 + (lat1 - lat0) * (j + 0.137 * math.sin(j)) / nlat) if 0 < j < nlat else math.radians(lat0 if j == 0 else lat1)
+        for i in range(nlon):
+            lo = math.radians(-180.0 + 360.0 * (i + 0.25) / nlon)
+            nodes.append((math.cos(la) * math.cos(lo), math.cos(la) * math.sin(lo), math.sin(la)))
+    for j in range(nlat):
+        for i in range(nlon):
+            i2 = (i + 1) % nlon
+            faces.append([j * nlon + i, j * nlon + i2, (j + 1) * nlon + i2, (j + 1) * nlon + i])
+    return meshgen.Mesh(nodes, faces, closed=False, name="band%dx%d" % (nlon, nlat))
 
 
 class Src:
@@ -407,9 +434,12 @@ def main(ck):
     lines_slice, keep_slice = [], []
     lines_lat, keep_lat = [], []
     lines_edges, keep_edges = [], []
+    sup_count = 0
     max_threads = numba.config.NUMBA_NUM_THREADS
     for mi in range(n_mesh):
         m = meshgen.gen_mesh(rng, max_ops=rng.choice([4, 8, 14]), partial=rng.random() < 0.3)
+        m.supplied_edges = supplied_edges_for(m, rng) if rng.random() < 0.3 else None
+        sup_count += 1 if m.supplied_edges else 0
         try:
             src = Src(m)
         except Exception as ex:
@@ -422,8 +452,8 @@ def main(ck):
             hist = rng.sample(HIST, rng.choice([0, 0, 1, 3, len(HIST)]))
             nthreads = rng.choice([1, 2, 7, max_threads]) if sel["kind"] == "lat" else max_threads
             nthreads = max(1, min(nthreads, max_threads))
-            case = {"mesh": {"nodes": m.nodes, "faces": m.faces}, "selection": describe(sel), "history": hist,
-                    "threads": nthreads}
+            case = {"mesh": {"nodes": m.nodes, "faces": m.faces, "supplied_edges": m.supplied_edges}, "selection": describe(sel),
+                    "history": hist, "threads": nthreads}
             ck.note_case((m.faces, json.dumps(describe(sel), sort_keys=True, default=str), tuple(hist)), nontrivial=True)
             kinds[sel["kind"] + ":" + str(sel.get("style", sel.get("element", "")))] = kinds.get(sel["kind"] + ":" + str(sel.get("style", sel.get("element", ""))), 0) + 1
             hist_used[len(hist)] = hist_used.get(len(hist), 0) + 1
@@ -490,6 +520,46 @@ def main(ck):
             if mi < 3 and si == 0:
                 ck.sample({"mesh": m.name, "selection": describe(sel), "history": hist, "threads": nthreads,
                            "result_faces": rec_f[:10]})
+    # ---- a large structured grid (> 4096 edges): the latitude scan under thread counts that do not divide n_edge ----
+    big_done = 0
+    for bi in range(1 if ck.tier == "quick" else 4):
+        m = band_mesh(72 + 5 * bi, 30 + bi, -75.0 + bi, 75.0 - 2 * bi)
+        m.supplied_edges = None
+        try:
+            src = Src(m)
+        except Exception as ex:
+            ck.fail("source_raises", {"mesh": m.name}, {}, detail=repr(ex))
+            continue
+        for nthreads in [1, 2, 3, 5, 7, 11, 13, max_threads]:
+            nthreads = max(1, min(nthreads, max_threads))
+            sel = None
+            while sel is None or sel["kind"] != "lat":
+                sel = gen_selection(rng, src)
+            case = {"mesh": {"band": [72 + 5 * bi, 30 + bi, -75.0 + bi, 75.0 - 2 * bi]}, "selection": describe(sel), "history": [],
+                    "threads": nthreads}
+            ck.note_case((m.name, sel["lat"], nthreads), nontrivial=True)
+            threads_used[nthreads] = threads_used.get(nthreads, 0) + 1
+            g = mk_grid(m)
+            numba.set_num_threads(nthreads)
+            try:
+                r = apply_selection(g, sel)
+            except ValueError as ex:
+                numba.set_num_threads(max_threads)
+                if not sel["exp"][0] and ("No " in str(ex)):
+                    continue
+                ck.fail("selection_raises", case, {"kind": "lat", "big": True}, detail=repr(ex))
+                continue
+            except Exception as ex:
+                numba.set_num_threads(max_threads)
+                ck.fail("selection_raises", case, {"kind": "lat", "big": True}, detail=repr(ex))
+                continue
+            numba.set_num_threads(max_threads)
+            bad = check_result(src, sel, r, deep=False)
+            if bad:
+                ck.fail(bad, case, {"kind": "lat", "history": False, "big": True, "threads": nthreads})
+            big_done += 1
+    ck.extra["large_grid_latitude_scans"] = big_done
+    ck.extra["meshes_with_supplied_edge_table"] = sup_count
     if ok:
         mod = ck.run_model("c09_slice", lines_slice)
         for (case, canon, rec_n), mo in zip(keep_slice, mod):
@@ -531,7 +601,11 @@ def replay(ck, rp):
     case = rp["case"]
     ck.note_case("replay")
     ck.note_case(json.dumps(case, default=str))
-    m = meshgen.Mesh(case["mesh"]["nodes"], case["mesh"]["faces"])
+    if "band" in case["mesh"]:
+        m = band_mesh(*case["mesh"]["band"])
+    else:
+        m = meshgen.Mesh(case["mesh"]["nodes"], case["mesh"]["faces"])
+    m.supplied_edges = case["mesh"].get("supplied_edges")
     src = Src(m)
     sd = case["selection"]
     sel = dict(sd)
@@ -541,12 +615,17 @@ def replay(ck, rp):
     g = mk_grid(m)
     for h in case.get("history", []):
         getattr(g, h)
+    import numba
+    mt = numba.config.NUMBA_NUM_THREADS
     try:
+        numba.set_num_threads(max(1, min(int(case.get("threads", mt)), mt)))
         r = apply_selection(g, sel)
     except Exception as ex:
+        numba.set_num_threads(mt)
         ck.fail("selection_raises", case, {"kind": sel["kind"]}, detail=repr(ex))
         return
-    bad = check_result(src, sel, r)
+    numba.set_num_threads(mt)
+    bad = check_result(src, sel, r, deep="band" not in case["mesh"])
     if bad:
         ck.fail(bad, case, {"kind": sel["kind"]})
     data_checks(ck, src, g, sel, case)
